@@ -9,7 +9,7 @@ use oal_compiler::definition::{Definition, External};
 use oal_compiler::tree::{Core, NRef, Tree};
 use oal_model::grammar::AbstractSyntaxNode;
 use oal_model::locator::Locator;
-use oal_syntax::parser::{Declaration, Gram, Identifier, Qualifier, Variable};
+use oal_syntax::parser::{Binding, Declaration, Gram, Identifier, Qualifier, Variable};
 use std::collections::hash_map::Entry;
 use std::collections::HashMap;
 use url::Url;
@@ -257,9 +257,17 @@ fn rename_variable(
         return Ok(());
     };
 
-    // Rename the variable declaration.
-    let decl = Declaration::cast(external.node(folder.modules().unwrap())).unwrap();
-    let decl_location = node_location(workspace, decl.identifier().node())?;
+    // Rename the variable declaration or binding (i.e. function parameter or recursion variable).
+    let node = external.node(folder.modules().unwrap());
+    let identifier = if let Some(decl) = Declaration::cast(node) {
+        decl.identifier().node()
+    } else if Binding::cast(node).is_some() {
+        node.first()
+    } else {
+        // Not an identifier definition.
+        return Ok(());
+    };
+    let decl_location = node_location(workspace, identifier)?;
     let decl_edit = TextEdit::new(decl_location.range, new_name.into());
     changes.insert(decl_location.uri, vec![decl_edit]);
 
